@@ -1,35 +1,45 @@
 #!/bin/bash
 # run.sh <Cxx> <quick|thorough>   |   run.sh replay <file>
 # Rebuilds the harness from /repo's current working tree (module replace), then runs the check.
+# VERIF_REPO=<dir> runs the same check against a scratch copy of the repository instead (separate binary,
+# VERIF_EVIDENCE_DIR/VERIF_REPLAY_DIR default to <dir>/.verif-out so committed evidence is never touched).
 set -u
 cd /verif
 export GOFLAGS=-mod=mod GOPROXY=off GOSUMDB=off GOTOOLCHAIN=local
 export VERIF_SEED="${VERIF_SEED:-0}"
 mkdir -p bin evidence replay
-cp -f /repo/go.sum go.sum.repo 2>/dev/null || true
-if ! go build -o bin/vcheck ./cmd/vcheck 2> bin/build.err; then
-  echo "BUILD-ERROR: the harness does not build against /repo's working tree:" >&2
-  cat bin/build.err >&2
-  exit 2
+suffix=""; modflag=()
+if [ -n "${VERIF_REPO:-}" ] && [ "$VERIF_REPO" != "/repo" ]; then
+  suffix=".$$"
+  sed "s#=> /repo#=> $VERIF_REPO#" go.mod > "bin/alt$suffix.mod"; cp go.sum "bin/alt$suffix.sum"
+  modflag=(-modfile="bin/alt$suffix.mod")
+  export VERIF_EVIDENCE_DIR="${VERIF_EVIDENCE_DIR:-$VERIF_REPO/.verif-out/evidence}" VERIF_REPLAY_DIR="${VERIF_REPLAY_DIR:-$VERIF_REPO/.verif-out/replay}"
+  mkdir -p "$VERIF_EVIDENCE_DIR" "$VERIF_REPLAY_DIR"
+  export VERIF_RACEPASS_BIN="/verif/bin/racepass$suffix"
 fi
+cleanup() { [ -n "$suffix" ] && rm -f "bin/vcheck$suffix" "bin/vcheck-c20$suffix" "bin/racepass$suffix" "bin/alt$suffix.mod" "bin/alt$suffix.sum" "bin/build$suffix.err"; [ -n "${ov:-}" ] && rm -rf "$ov"; }
+trap cleanup EXIT
+berr="bin/build$suffix.err"
+build_plain() {
+  go build "${modflag[@]}" -o "bin/vcheck$suffix" ./cmd/vcheck 2> "$berr" || { echo "BUILD-ERROR: the harness does not build against the repository's working tree:" >&2; cat "$berr" >&2; exit 2; }
+}
+build_c20() {
+  # (a) a build in which the repository's "sync" import is rewritten to the scheduler shim (go build -overlay, generated
+  # from the current working tree; the repository itself is not touched) and (b) a -race build of the free-running pass.
+  ov="$(mktemp -d /tmp/verif-overlay-XXXXXX)"
+  go run "${modflag[@]}" ./tools/mkoverlay "$ov" > "bin/overlay$suffix.log" 2>&1 || { echo "BUILD-ERROR: overlay generation failed" >&2; cat "bin/overlay$suffix.log" >&2; exit 2; }
+  go build "${modflag[@]}" -overlay "$ov/overlay.json" -o "bin/vcheck-c20$suffix" ./cmd/vcheck 2> "$berr" || { echo "BUILD-ERROR: overlay build failed:" >&2; cat "$berr" >&2; exit 2; }
+  go build "${modflag[@]}" -race -o "bin/racepass$suffix" ./cmd/racepass 2> "$berr" || { echo "BUILD-ERROR: -race build failed:" >&2; cat "$berr" >&2; exit 2; }
+}
 if [ "$1" = "replay" ]; then
   if grep -q '"property": "C20"' "$2" 2>/dev/null; then
-    ov="$(mktemp -d /tmp/verif-overlay-XXXXXX)"; trap 'rm -rf "$ov"' EXIT
-    go run ./tools/mkoverlay "$ov" > bin/overlay.log 2>&1 && go build -overlay "$ov/overlay.json" -o bin/vcheck-c20 ./cmd/vcheck && go build -race -o bin/racepass ./cmd/racepass || exit 2
-    bin/vcheck-c20 replay "$2"; exit $?
+    build_c20; "bin/vcheck-c20$suffix" replay "$2"; exit $?
   fi
-  exec bin/vcheck replay "$2"
+  build_plain; "bin/vcheck$suffix" replay "$2"; exit $?
 fi
 id="$1"; tier="${2:-${VERIF_TIER:-quick}}"
 if [ "$id" = "C20" ]; then
-  # C20 needs (a) a build in which the repository's "sync" import is rewritten to the scheduler shim (go build -overlay,
-  # generated from the current working tree; /repo itself is not touched) and (b) a -race build of the free-running pass.
-  ov="$(mktemp -d /tmp/verif-overlay-XXXXXX)"
-  trap 'rm -rf "$ov"' EXIT
-  go run ./tools/mkoverlay "$ov" > bin/overlay.log 2>&1 || { echo "BUILD-ERROR: overlay generation failed" >&2; cat bin/overlay.log >&2; exit 2; }
-  go build -overlay "$ov/overlay.json" -o bin/vcheck-c20 ./cmd/vcheck 2> bin/build.err || { echo "BUILD-ERROR: overlay build failed:" >&2; cat bin/build.err >&2; exit 2; }
-  go build -race -o bin/racepass ./cmd/racepass 2> bin/build.err || { echo "BUILD-ERROR: -race build failed:" >&2; cat bin/build.err >&2; exit 2; }
-  bin/vcheck-c20 run "$id" "$tier"; rc=$?
-  exit $rc
+  build_c20; "bin/vcheck-c20$suffix" run "$id" "$tier"; exit $?
 fi
-exec bin/vcheck run "$id" "$tier"
+build_plain
+"bin/vcheck$suffix" run "$id" "$tier"; exit $?
